@@ -2,7 +2,7 @@
  *
  *   L <text>     append <text> + newline to the program source (LPC text produced by the generator)
  *   sx <sexpr>   the same program as an S-expression - read by nvdrive only, ignored here
- *   run <n>      compile the accumulated source as /c03/prog (load_object with pre_text: the real lexer,
+ *   run <n>      write the accumulated source to /c03/prog.c of the run's mudlib copy and load it (the real lexer,
  *                preprocessor, grammar, code generator), then apply t0 .. t<n-1> in the real interpreter and
  *                print   r <i> <canonical value>   |   r <i> !err   |   r <i> !nofn
  *
@@ -158,7 +158,54 @@ static void run_prog (int nfn)
          inherit, which would look for a source file */
       if (!find_object_by_name ("c03/base"))
         load_object ("/c03/base.c", 0);
-      ob = load_object ("/c03/prog.c", src ? src : "");
+      {
+        /* the program is written into the run's private mudlib copy (cwd) and compiled from the file: no limit
+           on the size of the text (pre_text is limited) */
+        FILE *pf = fopen ("c03/prog.c", "w");
+        if (pf)
+          {
+            /* the lexer limits a source line to MAXLINE (1024) characters: break long lines at a blank outside
+               string literals */
+            int col = 0, inq = 0;
+            for (const char *q = src ? src : ""; *q; q++)
+              {
+                char ch = *q;
+                if (inq)
+                  {
+                    if (ch == '\\' && q[1])
+                      {
+                        fputc (ch, pf);
+                        ch = *++q;
+                        col++;
+                      }
+                    else if (ch == '"')
+                      inq = 0;
+                  }
+                else if (ch == '"')
+                  inq = 1;
+                if (ch == '\n')
+                  col = 0, inq = 0;
+                else
+                  col++;
+                if (!inq && ch == ' ' && col > 700 && q[1] != '\n' && src[0])
+                  {
+                    /* never inside a preprocessor line */
+                    const char *ls = q;
+                    while (ls > src && ls[-1] != '\n')
+                      ls--;
+                    if (*ls != '#')
+                      {
+                        fputc ('\n', pf);
+                        col = 0;
+                        continue;
+                      }
+                  }
+                fputc (ch, pf);
+              }
+            fclose (pf);
+          }
+      }
+      ob = load_object ("/c03/prog.c", 0);
       pop_context (&econ);
     }
   else
